@@ -101,6 +101,10 @@ func (a OutputBlindingArgs) validate(p *Pset, isLastOutput bool) error {
 	if len(a.NonceCommitment) != 33 {
 		return ErrOutInvalidNonceCommitment
 	}
+	// the packet parser requires the ecdh pubkey to be a curve point
+	if !validatePubkey(a.NonceCommitment) {
+		return ErrOutInvalidNonceCommitment
+	}
 	if a.ValueBlinder == nil {
 		return ErrOutMissingValueBlinder
 	}
@@ -161,6 +165,14 @@ func (a InputIssuanceBlindingArgs) validate(p *Pset) error {
 		return ErrInputIndexOutOfRange
 	}
 	targetInput := p.Inputs[a.Index]
+	// the commitments are written to the packet whatever the amounts of the
+	// input are: they must have the length the packet parser expects
+	if l := len(a.IssuanceValueCommitment); l != 0 && l != 33 {
+		return ErrInIssuanceInvalidValueCommitment
+	}
+	if l := len(a.IssuanceTokenCommitment); l != 0 && l != 33 {
+		return ErrInIssuanceInvalidTokenCommitment
+	}
 	if targetInput.IssuanceValue > 0 && len(a.IssuanceValueCommitment) > 0 {
 		if len(a.IssuanceValueCommitment) == 0 {
 			if len(a.IssuanceValueBlinder) == 0 {
